@@ -161,8 +161,18 @@ func runC05Real(cause c05Cause, launch string, idx int) (caseLine, impl, pred st
 	base := filepath.Join(work, fmt.Sprintf("c05-%d-%d", os.Getpid(), idx))
 	os.MkdirAll(base, 0o755)
 	defer os.RemoveAll(base)
-	caseLine = fmt.Sprintf("C05 launch=%s hs=0 ops=S,K cause=%s", map[string]string{"cmd": "cmd", "cmdattr": "cmd", "runner": "runner"}[launch], cause.name)
+	caseLine = fmt.Sprintf("C05 launch=%s hs=0 ops=S,K cause=%s", map[string]string{"cmd": "cmd", "cmdattr": "cmd", "cmdcancel": "cmd", "runner": "runner"}[launch], cause.name)
 	cmd := kitCmd(cause.kit, "TMPDIR="+base)
+	if launch == "cmdcancel" {
+		// the host built the command with exec.CommandContext and the documented graceful-stop hook (Cancel = SIGINT):
+		// that hook is the host's business (its own context), not what a force kill may use — plugins ignore SIGINT
+		caseLine += " attr=cancel"
+		cc := exec.CommandContext(context.Background(), cmd.Path, cmd.Args[1:]...)
+		cc.Env = cmd.Env
+		cc.Cancel = func() error { return cc.Process.Signal(os.Interrupt) }
+		cmd = cc
+		launch = "cmd"
+	}
 	if launch == "cmdattr" {
 		// the host configured process attributes of its own on the command (here the empty set: no new session or group)
 		caseLine += " attr=own"
@@ -261,6 +271,67 @@ func runC05Real(cause c05Cause, launch string, idx int) (caseLine, impl, pred st
 	return
 }
 
+func runC05RunnerStartFails() (impl, pred string) {
+	base := filepath.Join(os.Getenv("VERIF_WORK"), fmt.Sprintf("c05-rsf-%d", os.Getpid()))
+	os.MkdirAll(base, 0o755)
+	defer os.RemoveAll(base)
+	cmd := kitCmd(kitServeCfg{Sets: map[string]string{"3": "netrpc"}}, "TMPDIR="+base)
+	var pr *lcProcRunner
+	client := plugin.NewClient(&plugin.ClientConfig{
+		HandshakeConfig:  kitHandshake(),
+		VersionedPlugins: kitHostSets(map[int]string{3: "netrpc"}, nil, nil),
+		Logger:           nullLogger(),
+		StartTimeout:     3 * time.Second,
+		UnixSocketConfig: &plugin.UnixSocketConfig{TempDir: base},
+		RunnerFunc: func(l hclog.Logger, cm *exec.Cmd, tmpDir string) (runner.Runner, error) {
+			cmd.Env = append(cmd.Env, cm.Env...)
+			var err error
+			pr, err = newLcProcRunner(cmd)
+			if pr != nil {
+				pr.failAfterLaunch = true
+			}
+			return pr, err
+		},
+	})
+	defer func() {
+		if cmd.Process != nil {
+			cmd.Process.Kill()
+		}
+	}()
+	var serr error
+	if _, hung, pp := withTimeout(8*time.Second, func() error { _, serr = client.Start(); return nil }); hung || pp != nil {
+		return "start-hung", "FAIL:start-hung"
+	}
+	if serr == nil {
+		return "start-ok", "FAIL:setup-start-succeeded"
+	}
+	pid := 0
+	if cmd.Process != nil {
+		pid = cmd.Process.Pid
+	}
+	t0 := time.Now()
+	_, khung, kpp := withTimeout(8*time.Second, func() error { client.Kill(); return nil })
+	dirs := countDirs(base)
+	k := 0
+	if pr != nil {
+		k = int(atomic.LoadInt32(&pr.kills))
+	}
+	impl = fmt.Sprintf("kills=%d dirs=%d alive=%s", k, dirs, b01(pid != 0 && pidAlive(pid)))
+	switch {
+	case khung:
+		return impl, "FAIL:kill-after-failed-start-hung"
+	case kpp != nil:
+		return impl, "FAIL:kill-panicked"
+	case time.Since(t0) > 3*time.Second:
+		return impl, "FAIL:kill-after-failed-start-slow"
+	case pid != 0 && pidAlive(pid):
+		return impl, "FAIL:process-left-behind-after-kill"
+	case dirs != 0:
+		return impl, "FAIL:socket-dir-left-behind"
+	}
+	return impl, "ok"
+}
+
 func init() {
 	register("C05", func(o *out, replay string) {
 		if replay != "" {
@@ -276,6 +347,9 @@ func init() {
 					l := m["launch"]
 					if m["attr"] == "own" {
 						l = "cmdattr"
+					}
+					if m["attr"] == "cancel" {
+						l = "cmdcancel"
 					}
 					cl, impl, pred := runC05Real(c, l, i)
 					o.emit(cl, impl, pred)
@@ -304,7 +378,7 @@ func init() {
 		causes := c05Causes()
 		type rr struct{ cl, impl, pred string }
 		var jobs []func() rr
-		for _, launch := range []string{"cmd", "runner", "cmdattr"} {
+		for _, launch := range []string{"cmd", "runner", "cmdattr", "cmdcancel"} {
 			for i, c := range causes {
 				launch, c, i := launch, c, i
 				jobs = append(jobs, func() rr {
@@ -317,6 +391,12 @@ func init() {
 		parallel(len(jobs), 16, func(i int) { out[i] = jobs[i]() })
 		for _, x := range out {
 			o.emit(x.cl, x.impl, x.pred)
+		}
+		// a custom runner whose OWN Start reports an error after it created the process (outside the listed causes, so only
+		// the second sentence is demanded): the later Kill ends that process and removes the socket directory
+		{
+			impl, pred := runC05RunnerStartFails()
+			o.emit("!C05.runner-start-fails", impl, pred)
 		}
 		o.note("C05: %d failing scripted handshakes + %d real-process failed starts (%d causes x cmd/runner)", nerr, len(jobs), len(causes))
 	})
